@@ -162,213 +162,8 @@ Proof.
   - apply R_init.
 Qed.
 
-(* ---------- CachingMap runs: the model refines the abstract astate of Spec.v ---------- *)
-Section CacheRef.
-  Variable V : Type.
-  Variable veq : V -> V -> bool.
-  Hypothesis veq_refl : forall a, veq a a = true.
-  Hypothesis veq_sym : forall a b, veq a b = veq b a.
-  Hypothesis veq_trans : forall a b c, veq a b = true -> veq b c = true -> veq a c = true.
-  Hypothesis kid : forall a b, veq a b = true -> a = b.      (* CachingMap: valuesEqual is == *)
-
-  Definition CRb (c : cst V) (a : astate V) : Prop :=
-    CI V veq c /\ R V veq (c_t c) (a_D a, a_P a) /\ NoDup (keys (a_R a)) /\
-    (forall k, get (c_dp c) k = get (a_R a) k) /\ c_loaded c = a_loaded a /\ a_coh a = a_loaded a.
-
-  Lemma oveq_eq x y : opt_veq V veq x y = true -> x = y.
-  Proof. destruct x, y; cbn; try congruence. intros H. apply kid in H. congruence. Qed.
-
-  Lemma pu_abs c a k : CRb c a -> get (DU (c_t c)) k = pending_update V veq (get (a_D a)) (get (a_P a)) k.
-  Proof.
-    intros (HC & [Rd Rp] & _). cbn [fst snd] in *.
-    change (get (DU (c_t c)) k) with (pu_get V (c_t c) k). rewrite (inv_pu V veq veq_refl _ k (ci_inv _ _ _ HC)).
-    unfold pending_update. rewrite (oveq_eq _ _ (Rd k)), (oveq_eq _ _ (Rp k)). reflexivity.
-  Qed.
-  Lemma pd_abs c a k : CRb c a -> get (ND (c_t c)) k = pending_del V (get (a_D a)) (get (a_P a)) k.
-  Proof.
-    intros (HC & [Rd Rp] & _). cbn [fst snd] in *.
-    change (get (ND (c_t c)) k) with (pd_get V (c_t c) k). rewrite (inv_pd V veq _ k (ci_inv _ _ _ HC)).
-    unfold pending_del. rewrite (oveq_eq _ _ (Rd k)), (oveq_eq _ _ (Rp k)). reflexivity.
-  Qed.
-
-  Lemma upd_visit_ref c a e x : CRb c a ->
-    CRb (fst (c_upd_visit V (c, e) x)) (fst (a_upd_visit V veq (a, e) x)) /\
-    snd (c_upd_visit V (c, e) x) = snd (a_upd_visit V veq (a, e) x).
-  Proof.
-    intros HCR. pose proof HCR as (HC & [Rd Rp] & NR & ER & EL & ECoh). cbn [fst snd] in *.
-    destruct (c_upd_visit_ci V veq c e x HC) as (H1 & _ & H3 & H4 & _).
-    pose proof (pu_abs c a (fst (fst x)) HCR) as F.
-    unfold c_upd_visit, a_upd_visit in *. rewrite <- F.
-    destruct (get (DU (c_t c)) (fst (fst x))) as [d|] eqn:E; [|cbn [fst snd]; auto].
-    destruct (snd x); cbn [fst snd] in *; [|auto].
-    split; [|reflexivity]. unfold CRb. cbn [c_t c_dp c_loaded a_D a_P a_R a_loaded a_coh].
-    split; [exact H1|]. split.
-    - split; cbn [fst snd]; intros k.
-      + rewrite pu_visit_get. apply Rd.
-      + rewrite pu_visit_dp. cbn [fst snd]. rewrite E, get_set. destruct (N.eqb (fst (fst x)) k); [apply oveq_refl, veq_refl|apply Rp].
-    - repeat split; auto using NoDup_set. intros k. rewrite !get_set, ER. reflexivity.
-  Qed.
-  Lemma del_visit_ref c a e x : CRb c a ->
-    CRb (fst (c_del_visit V (c, e) x)) (fst (a_del_visit V (a, e) x)) /\
-    snd (c_del_visit V (c, e) x) = snd (a_del_visit V (a, e) x).
-  Proof.
-    intros HCR. pose proof HCR as (HC & [Rd Rp] & NR & ER & EL & ECoh). cbn [fst snd] in *.
-    destruct (c_del_visit_ci V veq c e x HC) as (H1 & _ & H3 & H4 & _).
-    pose proof (pd_abs c a (fst x) HCR) as F.
-    unfold c_del_visit, a_del_visit in *. rewrite <- F.
-    destruct (get (ND (c_t c)) (fst x)) as [d|] eqn:E; [|cbn [fst snd]; auto].
-    destruct (snd x); cbn [fst snd] in *; [|auto].
-    split; [|reflexivity]. unfold CRb. cbn [c_t c_dp c_loaded a_D a_P a_R a_loaded a_coh].
-    split; [exact H1|]. split.
-    - split; cbn [fst snd]; intros k.
-      + rewrite pd_visit_get. apply Rd.
-      + rewrite (pd_visit_dp V veq) by apply HC. cbn [fst snd]. rewrite E, get_del. destruct (N.eqb (fst x) k); [reflexivity|apply Rp].
-    - repeat split; auto using NoDup_del. intros k. rewrite !get_del, ER. reflexivity.
-  Qed.
-
-  Lemma upd_fold_ref tr : forall c a e, CRb c a ->
-    CRb (fst (fold_left (c_upd_visit V) tr (c, e))) (fst (fold_left (a_upd_visit V veq) tr (a, e))) /\
-    snd (fold_left (c_upd_visit V) tr (c, e)) = snd (fold_left (a_upd_visit V veq) tr (a, e)).
-  Proof.
-    induction tr as [|x tr IH]; intros c a e H; cbn [fold_left]; [auto|].
-    destruct (upd_visit_ref c a e x H) as (H1 & H2).
-    destruct (c_upd_visit V (c, e) x) as [c1 e1], (a_upd_visit V veq (a, e) x) as [a1 e1']. cbn [fst snd] in *. subst. apply IH, H1.
-  Qed.
-  Lemma del_fold_ref tr : forall c a e, CRb c a ->
-    CRb (fst (fold_left (c_del_visit V) tr (c, e))) (fst (fold_left (a_del_visit V) tr (a, e))) /\
-    snd (fold_left (c_del_visit V) tr (c, e)) = snd (fold_left (a_del_visit V) tr (a, e)).
-  Proof.
-    induction tr as [|x tr IH]; intros c a e H; cbn [fold_left]; [auto|].
-    destruct (del_visit_ref c a e x H) as (H1 & H2).
-    destruct (c_del_visit V (c, e) x) as [c1 e1], (a_del_visit V (a, e) x) as [a1 e1']. cbn [fst snd] in *. subst. apply IH, H1.
-  Qed.
-
-  Lemma load_ref fixed fail c a : CRb c a ->
-    CRb (fst (c_load V veq fixed fail c)) (fst (a_load V fail a)) /\ snd (c_load V veq fixed fail c) = snd (a_load V fail a).
-  Proof.
-    intros HCR. pose proof HCR as (HC & [Rd Rp] & NR & ER & EL & ECoh). cbn [fst snd] in *.
-    unfold a_load. destruct fail; [unfold c_load; cbn [fst snd]; auto|].
-    destruct (c_load_ok V veq veq_refl veq_sym veq_trans fixed c (ci_inv _ _ _ HC) (ci_nd _ _ _ HC)) as (H1 & H2 & H3 & H4). cbn zeta in *.
-    split; [|reflexivity]. cbn [fst]. unfold CRb. cbn [a_D a_P a_R a_loaded a_coh].
-    split; [exact H1|]. split.
-    - split; cbn [fst snd]; intros k.
-      + eapply oveq_trans; eauto.
-      + rewrite (ci_coh _ _ _ H1 H2 k), H3, ER. apply oveq_refl, veq_refl.
-    - repeat split; auto.
-  Qed.
-  Lemma maybe_load_ref fixed lf c a : CRb c a ->
-    CRb (fst (c_maybe_load V veq fixed lf c)) (fst (a_maybe_load V lf a)) /\
-    snd (c_maybe_load V veq fixed lf c) = snd (a_maybe_load V lf a).
-  Proof.
-    intros HCR. pose proof HCR as (_ & _ & _ & _ & EL & _). unfold c_maybe_load, a_maybe_load. rewrite EL.
-    destruct (a_loaded a); [auto|apply load_ref, HCR].
-  Qed.
-  Lemma upd_ref fixed lf tr c a : CRb c a ->
-    CRb (fst (c_upd V veq fixed lf tr c)) (fst (a_upd V veq lf tr a)) /\ snd (c_upd V veq fixed lf tr c) = snd (a_upd V veq lf tr a).
-  Proof.
-    intros HCR. unfold c_upd, a_upd. destruct (maybe_load_ref fixed lf c a HCR) as (H1 & H2).
-    destruct (c_maybe_load V veq fixed lf c) as [c1 e1], (a_maybe_load V lf a) as [a1 e1']. cbn [fst snd] in *. subst.
-    destruct (Z.eqb e1' 0); [apply upd_fold_ref, H1|auto].
-  Qed.
-  Lemma del_ref fixed lf tr c a : CRb c a ->
-    CRb (fst (c_del V veq fixed lf tr c)) (fst (a_del V lf tr a)) /\ snd (c_del V veq fixed lf tr c) = snd (a_del V lf tr a).
-  Proof.
-    intros HCR. unfold c_del, a_del. destruct (maybe_load_ref fixed lf c a HCR) as (H1 & H2).
-    destruct (c_maybe_load V veq fixed lf c) as [c1 e1], (a_maybe_load V lf a) as [a1 e1']. cbn [fst snd] in *. subst.
-    destruct (Z.eqb e1' 0); [apply del_fold_ref, H1|auto].
-  Qed.
-
-  Lemma cstep_ref fixed c a o : cop_ok V o -> CRb c a ->
-    CRb (fst (cstep V veq fixed c o)) (fst (a_cstep V veq a o)) /\ snd (cstep V veq fixed c o) = snd (a_cstep V veq a o).
-  Proof.
-    intros Ho HCR. pose proof HCR as (HC & HR & NR & ER & EL & ECoh).
-    pose proof (cstep_ci V veq veq_refl veq_sym veq_trans fixed c o Ho HC) as HC'.
-    destruct o as [o| | | | | | | | |]; cbn [cop_ok] in Ho; try contradiction.
-    - cbn [cstep a_cstep fst snd] in *. split; [|reflexivity]. unfold CRb. cbn [c_t c_dp c_loaded a_D a_P a_R a_loaded a_coh].
-      split; [exact HC'|]. split.
-      + assert (Hok : op_ok V fixed (c_t c) o) by (destruct o; try contradiction; exact I).
-        pose proof (step_R V veq veq_refl veq_sym veq_trans fixed (c_t c) (a_D a, a_P a) o Hok (ci_inv _ _ _ HC) HR) as R'.
-        destruct (a_step V veq (a_D a, a_P a) o); exact R'.
-      + repeat split; auto. rewrite ECoh. destruct o; try contradiction; cbn; apply andb_true_r.
-    - cbn [cstep a_cstep]. apply load_ref, HCR.
-    - cbn [cstep a_cstep]. apply upd_ref, HCR.
-    - cbn [cstep a_cstep]. apply del_ref, HCR.
-    - cbn [cstep a_cstep]. unfold c_all.
-      destruct (del_ref fixed loadfail trd c a HCR) as (H1 & H2).
-      destruct (c_del V veq fixed loadfail trd c) as [c1 e1], (a_del V loadfail trd a) as [a1 e1']. cbn [fst snd] in *. subst.
-      destruct (upd_ref fixed loadfail tru c1 a1 H1) as (H3 & H4).
-      destruct (c_upd V veq fixed loadfail tru c1) as [c2 e2], (a_upd V veq loadfail tru a1) as [a2 e2']. cbn [fst snd] in *. subst. auto.
-  Qed.
-End CacheRef.
-
 Lemma all_none_nil {V} (m : amap V) : (forall k, get m k = None) -> m = [].
 Proof. destruct m as [|[a v] m]; [reflexivity|]. intros H. specialize (H a). cbn in H. rewrite N.eqb_refl in H. discriminate. Qed.
-
-(* validity of a CachingMap run: no writes behind the cache's back, Desired()-side tracker operations only,
-   and the recorded Update/Delete calls of an ApplyAllChanges cover every pending key (the code ranges over
-   the whole map) *)
-Fixpoint cvalid (fixed : bool) (kd : kind) (c : cst N) (ops : list (cop N)) : Prop :=
-  match ops with
-  | [] => True
-  | o :: r =>
-      cop_ok N o /\
-      (match o with
-       | CAll lf trd tru =>
-           let c1 := fst (c_maybe_load N (veq_of kd) fixed lf c) in
-           (forall k, get (ND (c_t c1)) k <> None -> In k (map fst trd)) /\
-           (forall k, get (DU (c_t c1)) k <> None -> In k (map (fun x => fst (fst x)) tru))
-       | _ => True
-       end) /\
-      cvalid fixed kd (fst (cstep N (veq_of kd) fixed c o)) r
-  end.
-
-Lemma meets_cache_from fixed kd univ : (forall a b, veq_of kd a b = true -> a = b) ->
-  forall ops (c : cst N) (a : astate N), CRb N (veq_of kd) c a -> cvalid fixed kd c ops ->
-  ok_trace_from kd univ a (kv_sort (DU (c_t c))) (map fst (kv_sort (ND (c_t c)))) ops (run_obs fixed kd univ c ops) = true.
-Proof.
-  intros kid. induction ops as [|o ops IH]; intros c a HCR Hv; [reflexivity|].
-  destruct Hv as (Ho & Hcov & Hv).
-  destruct (cstep_ref N (veq_of kd) (veq_of_refl kd) (veq_of_sym kd) (veq_of_trans kd) kid fixed c a o Ho HCR) as (HCR' & He).
-  cbn [run_obs ok_trace_from].
-  destruct (cstep N (veq_of kd) fixed c o) as [c' e] eqn:EC. destruct (a_cstep N (veq_of kd) a o) as [a' e'] eqn:EA.
-  cbn [fst snd] in *. subst e'.
-  pose proof HCR' as (HC' & HR' & NR' & ER' & EL' & ECoh').
-  pose proof (ci_inv _ _ _ HC') as I'. pose proof (ci_nd _ _ _ HC') as ND'.
-  destruct (lens_exact N (veq_of kd) (c_t c') I') as ((_ & N1 & G1) & (_ & N2 & G2) & _).
-  apply andb_true_intro; split; [apply andb_true_intro; split; [apply andb_true_intro; split|]|].
-  - destruct o as [o| | | | | | | | |]; try reflexivity. destruct o; try reflexivity; contradiction.
-  - apply ok_obs_observe; assumption.
-  - unfold ok_cache, observe. cbn [o_real o_nerr o_dp o_des o_pu o_pd].
-    apply andb_true_intro; split; [apply andb_true_intro; split; [apply andb_true_intro; split; [apply andb_true_intro; split|]|]|].
-    + apply nodup_keysb_true, NoDup_kv_sort, ND'.
-    + apply map_eqb_true; auto using NoDup_kv_sort. intros k. rewrite get_kv_sort by assumption. apply ER'.
-    + apply Z.eqb_refl.
-    + destruct (a_coh a') eqn:Ecoh; [|reflexivity].
-      assert (L : c_loaded c' = true) by congruence.
-      apply map_eqb_true; auto using NoDup_kv_sort. intros k. rewrite !get_kv_sort by assumption.
-      rewrite G2. apply (ci_coh _ _ _ HC' L k).
-    + destruct o as [o| | | | | | | | |]; try reflexivity; try (cbn in Ho; contradiction).
-      destruct (a_coh a' && (e =? 0)%Z) eqn:Eg; [|reflexivity].
-      apply andb_true_iff in Eg. destruct Eg as [_ Ez]. apply Z.eqb_eq in Ez.
-      destruct Hcov as (CovD & CovU). cbn [cstep] in EC.
-      pose proof (apply_all_converges N (veq_of kd) (veq_of_refl kd) (veq_of_sym kd) (veq_of_trans kd)
-                    fixed loadfail trd tru c kid (let '(conj x _) := HCR in x) CovD CovU) as Conv.
-      cbn zeta in Conv. rewrite EC in Conv. cbn [fst snd] in Conv. destruct (Conv Ez) as (_ & _ & C1 & C2 & C3 & _).
-      assert (DU (c_t c') = []) as -> by (apply all_none_nil, C2).
-      assert (ND (c_t c') = []) as -> by (apply all_none_nil, C3).
-      apply andb_true_intro; split; [apply andb_true_intro; split|]; try reflexivity.
-      apply map_eqb_true; auto using NoDup_kv_sort. intros k. rewrite !get_kv_sort by assumption. rewrite G1. apply C1.
-  - cbn [o_pu o_pd observe]. apply IH; assumption.
-Qed.
-
-Theorem model_meets_spec_cache fixed kd univ (ops : list (cop N)) :
-  (forall a b, veq_of kd a b = true -> a = b) ->
-  cvalid fixed kd (cst0 N) ops ->
-  ok_trace kd univ ops (run_obs fixed kd univ (cst0 N) ops) = true.
-Proof.
-  intros kid Hv. unfold ok_trace. apply (meets_cache_from fixed kd univ kid ops (cst0 N) (as0 N)); [|exact Hv].
-  unfold CRb. split; [apply CI_cst0|]. split; [apply R_init|]. cbn. repeat split; auto using NoDup_nil.
-Qed.
 
 (* the validity hypotheses are satisfiable by non-trivial runs *)
 Example ex_tvalid : tvalid false KExact (st0 N) ex_ops /\
@@ -379,15 +174,3 @@ Proof.
   right. cbn [keys map fst]. repeat (apply NoDup_cons || apply NoDup_nil); cbn [In]; intuition discriminate.
 Qed.
 
-Definition ex_cops : list (cop N) :=
-  [COp (DesSet 1 2); CLoad false; COp (DesSet 2 1); CUpd false [(2, 1, false); (1, 2, true)]; CAll false [] [(2, 1, true)]].
-Example ex_cvalid : cvalid false KCache (cst0 N) ex_cops /\
-  ok_trace KCache [0; 1; 2] ex_cops (run_obs false KCache [0; 1; 2] (cst0 N) ex_cops) = true.
-Proof.
-  split; [|vm_compute; reflexivity].
-  unfold ex_cops. cbn [cvalid cop_ok]. repeat split; try exact I.
-  - intros k H. vm_compute in H. congruence.
-  - intros k H. cbn [map fst]. vm_compute in H.
-    destruct (N.eqb_spec 2 k) as [<-|]; [left; reflexivity|]. exfalso. apply H.
-    destruct k as [|p]; [reflexivity|]. destruct p as [p|p|]; try reflexivity; destruct p; try reflexivity; congruence.
-Qed.
